@@ -338,6 +338,30 @@ func runC08(c *Ctx) {
 			}
 		}
 	}
+	// requests submitted while the library is reconnecting (they wait in front of the resubscription), the
+	// first of them answered 6 s late, so that the resubscription is requested while they are still pending
+	{
+		hs := []c08Sym{{"sub", []string{"g:1"}}, {"unsub", []string{"f"}}, {"sub", []string{"f:2"}}}
+		saved := faults
+		faults = env.FaultSet{LostClose: true, LateAck: true, OnlyTypes: map[byte]bool{env.PUBLISH: true, env.SUBSCRIBE: true, env.UNSUBSCRIBE: true}}
+		c.Bound("handshake.late.F2", fmt.Sprintf("[sub f:1 settled, QoS 0|1 publish settled (its loss forces the reconnect), X and Y during the reconnect handshake] for X != Y in %v; faults %+v with F<=2; session lost / kept with AlwaysResubscribe", hs, faults))
+		for _, x := range hs {
+			for _, y := range hs {
+				if x.kind == y.kind && x.subs[0] == y.subs[0] {
+					continue
+				}
+				for _, k := range []string{"p0", "p1"} {
+					// a lost QoS 0 publish leaves nothing to retry: X and Y are then carried out directly, ahead of the resubscription
+					reqs := []rcReq{{Kind: "sub", Subs: []string{"f:1"}, Phase: 'S'}, {Kind: k, Tag: "m1", Phase: 'S'},
+						{Kind: x.kind, Subs: x.subs, Phase: 'H'}, {Kind: y.kind, Subs: y.subs, Phase: 'H'}}
+					for _, cf := range []conf{{false, false, false, false, false}, {true, true, false, false, false}} {
+						run("handshake.late.F2", reqs, cf, vrt.Budget{F: 2})
+					}
+				}
+			}
+		}
+		faults = saved
+	}
 	// three subscriptions, the connection lost while a SUBSCRIBE is in flight up to three times and
 	// the session forgotten by the broker on some reconnect (kept on the others)
 	{
